@@ -28,6 +28,8 @@ pub enum Inserts {
     Symbols(Vec<u8>),
     /// n entries, key = (i * 7919 % keys) as u16 BE, value = tagged piece of `vlen` bytes
     Bulk { n: usize, keys: usize, vlen: usize },
+    /// like Bulk with keys padded to `klen` bytes (chunks with many data blocks and cut index blocks)
+    BulkLong { n: usize, keys: usize, klen: usize, vlen: usize },
 }
 
 impl Inserts {
@@ -40,6 +42,13 @@ impl Inserts {
                 .collect(),
             Inserts::Bulk { n, keys, vlen } => (0..*n)
                 .map(|i| ((((i * 7919) % keys) as u16).to_be_bytes().to_vec(), piece(i, *vlen)))
+                .collect(),
+            Inserts::BulkLong { n, keys, klen, vlen } => (0..*n)
+                .map(|i| {
+                    let mut k = (((i * 7919) % keys) as u16).to_be_bytes().to_vec();
+                    k.resize(*klen, 0x4B);
+                    (k, piece(i, *vlen))
+                })
                 .collect(),
         }
     }
@@ -282,6 +291,24 @@ pub fn run(tier: Tier) -> i32 {
                 for n in [5usize, 40] {
                     bulk.push(Case { inserts: Inserts::Bulk { n, keys: 3, vlen: 8 }, cfg: SorterCfg::scaled(t, init, realloc, chunks, false), how: Extraction::Stream, pool: 0 });
                 }
+            }
+        }
+    }
+    // chunks large enough for their index blocks to be cut (long keys, index_levels 2 and 3,
+    // block_size 1024), written in one piece and across spills and chunk merges
+    for levels in [2u8, 3] {
+        for (t, chunks) in [(None, 25usize), (Some(1usize << 13), 2), (Some(1 << 14), 25)] {
+            for how in EXTRACTIONS {
+                let mut cfg = SorterCfg::scaled(t.unwrap_or(1 << 13), 1 << 10, true, chunks, false);
+                if t.is_none() {
+                    cfg.min_memory = None;
+                    cfg.initial = None;
+                    cfg.dump_threshold = None;
+                }
+                cfg.index_levels = Some(levels);
+                cfg.block_size = Some(1024);
+                cfg.interval = Some(2);
+                bulk.push(Case { inserts: Inserts::BulkLong { n: 90, keys: 60, klen: 600, vlen: 8 }, cfg, how, pool: 0 });
             }
         }
     }
